@@ -11,7 +11,8 @@ def contract():
         Q,
         params={"cls": "cls", "gateway": GW, "message": MSG, "message_buffer": BUFT},
         requires=[H("dispatched-as-internal", "message.command == 3"),
-                  H("wf/schema-follows-protocol", "gateway._message_schema.ctx_protocol == gateway._protocol")],
+                  H("wf/schema-follows-protocol", "gateway._message_schema.ctx_protocol == gateway._protocol"),
+                  H("wf/buffer-dicts-distinct", "not (gateway._message_buffer.internal_messages is gateway._message_buffer.set_messages)")],
         # the id handed out: whatever key this path registered (independent of the allocation strategy)
         witness={"new_id": (TInt, "the_stored_key(gateway.nodes)")},
         fresh={"new_node": {"type": TObj("Node"), "is": "gateway.nodes[new_id]"},
